@@ -298,7 +298,8 @@ def check_bisect(rep, run: Run, D: Blocks):
     accepted = [st for st in branch.body if isinstance(st, ast.Assign) and isinstance(st.value, ast.Name)
                 and st.value.id == dname and isinstance(st.targets[0], ast.Name)]
     if not accepted:
-        rep.refuted("BN-BISECT", fi, branch, "the feasible arm never records the probed value as the new distance")
+        rep.unmodelled("BN-BISECT", fi, branch, "how the feasible arm records its result was not recognised (a callback, an "
+                                                "accumulator, an index)")
     else:
         res_name = accepted[0].targets[0].id
         others = [n for n in ast.walk(w) if isinstance(n, ast.Assign) and isinstance(n.targets[0], ast.Name)
@@ -543,11 +544,54 @@ def check_order(rep, run: Run):
                                                        "len(): independent of set iteration order / hash seed")
 
 
+def _check_all_dropped(rep, run, qual, rule, name):
+    """a diagram whose points all have an infinite death time has nothing left after the filter: it must be stood in for by the
+    diagonal point exactly like a diagram that was empty to begin with (otherwise the matrix has no rows for it and the call
+    fails or pairs the other diagram with nothing)"""
+    fi = run.fi
+    try:
+        D = run.cost_matrix()
+    except AnalysisError:
+        rep.unmodelled(rule, fi, fi.node, f"`{name}` with only infinite points: no cost matrix was assembled")
+        return
+    def exact(s_):
+        # nothing before this store of the matrix was unmodelled (what follows the assembly does not matter here)
+        evs = [e for e in run.log if e["kind"] == "store" and e.get("node") is s_["node"]]
+        return run.interp.clean_before(evs[-1]) if evs else run.interp.clean_before()
+    holders = [s for s in D.stores if isinstance(s["val"], DiagMat) and not sym.inputs_of(s["val"].on)]
+    if holders:
+        s = holders[0]
+        v = s["val"]
+        if v.on == sym.ZERO and sym.equal(v.n, sym.ONE):
+            rep.discharged(rule, fi, s["node"], f"`{name}` with only infinite points is represented by one point with zero diagonal "
+                                                f"cost, like an empty diagram")
+        elif exact(s):
+            rep.refuted(rule, fi, s["node"], f"`{name}` with only infinite points is represented by {sym.show(v.n)} point(s) with "
+                                             f"diagonal cost {sym.show(v.on)} — not a diagonal point",
+                        construct=f"{qual}: placeholder for all-infinite {name}")
+        else:
+            rep.unmodelled(rule, fi, s["node"], f"`{name}` with only infinite points: the placeholder was not followed exactly")
+        return
+    # no placeholder block: the filtered diagram went on with zero rows
+    zero_rows = [s for s in D.stores if isinstance(s["val"], DiagMat) and sym.inputs_of(s["val"].on) == {name}]
+    if zero_rows and exact(zero_rows[0]):
+        s = zero_rows[0]
+        rep.refuted(rule, fi, s["node"], f"a diagram `{name}` whose points all have an infinite death time is left with no rows after "
+                                         f"the filter and is not replaced by the diagonal point: the cost matrix has no row for it "
+                                         f"(the call fails, or the other diagram is matched against nothing)",
+                    construct=f"{qual}: no placeholder for all-infinite {name}")
+    else:
+        rep.unmodelled(rule, fi, fi.node, f"placeholder block for `{name}` with only infinite points not found")
+
+
 def check_empty(rep, project, qual, rule="BN-EMPTY"):
     """an empty diagram is replaced by the single diagonal point (0,0)"""
-    for kind, name in (("empty1", "S"), ("empty2", "T")):
+    for kind, name in (("empty1", "S"), ("empty2", "T"), ("allinf1", "S"), ("allinf2", "T")):
         run = Run(project, qual, kind=kind)
         fi = run.fi
+        if kind.startswith("allinf"):
+            _check_all_dropped(rep, run, qual, rule, name)
+            continue
         D = run.cost_matrix()
         roles = block_roles(run, D)
         # the diagonal block of the empty side must be constant 0 cost (point on the diagonal), 1x1
@@ -634,7 +678,7 @@ def run(project: Project, rep, tier: str):
     rep.floor("BN-BISECT", 1 if skip_bisect_floor else 4)
     rep.floor("BN-SEARCH", 1 if st != "unmodelled" else 0)
     rep.floor("BN-ORDER", 1)
-    rep.floor("BN-EMPTY", 2)
+    rep.floor("BN-EMPTY", 4)
     for t in ("numpy.abs", "numpy.maximum", "numpy.fill_diagonal", "numpy.unique", "numpy.sort",
               "hopcroftkarp.HopcroftKarp.maximum_matching", "bisect.bisect_left", "numpy.isfinite"):
         rep.trust(t)
